@@ -328,6 +328,63 @@ func checkThesauri(prop string, seg segment.Segment, want *spec.Obs, excepts []s
 					}
 				}
 			}
+			// callers may keep ONE key buffer and overwrite it in place between lookups: a lookup must
+			// not depend on the bytes a previous lookup was given (same handle, same buffer, another
+			// term of the same length - known or unknown)
+			if model != nil {
+				scratch := make([]byte, 0, 64)
+				for _, first := range wantTerms {
+					others := append([]string{}, wantTerms...)
+					if len(first) > 0 {
+						unk := []byte(first)
+						unk[len(unk)-1] ^= 0x55
+						others = append(others, string(unk))
+					}
+					for _, second := range others {
+						if len(second) != len(first) || second == first {
+							continue
+						}
+						scratch = append(scratch[:0], first...)
+						l1, err := th.SynonymsList(scratch, nil, nil)
+						if err != nil {
+							return err
+						}
+						n1 := 0
+						for it := l1.Iterator(nil); ; n1++ {
+							if x, err := it.Next(); err != nil || x == nil {
+								break
+							}
+						}
+						if n1 != len(model[first]) {
+							v = violation(prop, "thes/pairs", "%sthesaurus %q term %q: %d pairs, model %d", tag, name, first, n1, len(model[first]))
+							return nil
+						}
+						scratch = append(scratch[:0], second...)
+						l2, err := th.SynonymsList(scratch, nil, nil)
+						if err != nil {
+							return err
+						}
+						var got []spec.SynPair
+						for it := l2.Iterator(nil); ; {
+							x, err := it.Next()
+							if err != nil {
+								return err
+							}
+							if x == nil {
+								break
+							}
+							got = append(got, spec.SynPair{Syn: x.Term(), Doc: x.Number()})
+						}
+						wantPairs := append([]spec.SynPair(nil), model[second]...)
+						sortPairs(got)
+						sortPairs(wantPairs)
+						if !(len(got) == 0 && len(wantPairs) == 0) && !reflect.DeepEqual(got, wantPairs) {
+							v = violation(prop, "thes/key-buffer-reuse", "%sthesaurus %q: after looking up %q, the same key buffer was overwritten with %q and looked up again: got %v, model %v", tag, name, first, second, got, wantPairs)
+							return nil
+						}
+					}
+				}
+			}
 			// synonym fields contribute nothing to the ordinary dictionaries
 			if model != nil {
 				d, err := seg.Dictionary(name)
